@@ -722,10 +722,44 @@ def c12(tier, rep):
             rb = pro + "let x = %s;\nformat!(\"{:?} outer={:?}\", x, nm)" % ref
             mb = pro + "let x = via!(nm);\nformat!(\"{:?} outer={:?}\", x, nm)"
         progs.append(e2.Prog("hygiene/%s" % mac, rb, mb, [[0]], "Proj" if mac == "join_spawn" else ("TryAsync" if is_async else "Full"), pre=tpl, meta={"macro": mac, "dsl": tpl + " via!(nm)", "ref": ref}))
+    progs += let_value_shape_programs()
     fr = e2.run_family("c12", progs, extra_header=fp.HEADER)
     judge_family(rep, fr)
-    rep.set("rule", "depth profiles n<=3,d<=3 (some branch with >= 2 steps) x EVERY non-empty subset of named branches (let / let mut alternating) x 8 macro kinds; EVERY capture of every (branch, step>=1) snapshots ALL visible names; oracle: the macro result equals the reference's (which is the result without let) and every snapshot equals the reference's 'latest completed step value of the named branch, still wrapped in try macros', also after that branch finished")
+    rep.set("rule", "let in front of EVERY shape of initial value (binary operators of every precedence level incl. the lazy boolean ones, unary, cast, if / match / closure call / block / index / field / path call), let and let mut, read by a capture of another branch; depth profiles n<=3,d<=3 (some branch with >= 2 steps) x EVERY non-empty subset of named branches (let / let mut alternating) x 8 macro kinds; EVERY capture of every (branch, step>=1) snapshots ALL visible names; oracle: the macro result equals the reference's (which is the result without let) and every snapshot equals the reference's 'latest completed step value of the named branch, still wrapped in try macros', also after that branch finished")
     sample_family(rep, progs, fr)
+
+
+LET_SHAPES = [
+    ("i32", "int(0) + int(1)"), ("i32", "int(0) * 2 - int(1)"), ("i32", "-int(0)"), ("i32", "int(0) << 1"), ("i32", "int(0) | 4"),
+    ("i32", "int(0) ^ 5"), ("i32", "int(0) & 6"), ("i32", "int(0) as i64 as i32"), ("i32", "if int(0) > 0 { 1 } else { 2 }"),
+    ("i32", "match int(0) { 0 => 7, v => v }"), ("i32", "(|| int(0))()"), ("i32", "{ int(0) }"), ("i32", "[int(0), 5][0]"),
+    ("i32", "(int(0), 9).0"), ("i32", "i32::max(int(0), 3)"), ("i32", "int(0) % 3 + int(1) / 2"),
+    ("bool", "int(0) > 0 || int(1) > 0"), ("bool", "int(0) > 0 && int(1) > 0"), ("bool", "int(0) == int(1)"), ("bool", "int(0) < int(1)"),
+    ("bool", "!(int(0) > 0)"), ("bool", "int(0) > 0 || int(1) > 0 && int(0) > 2"), ("bool", "int(0) > 0 && int(1) > 0 || int(0) > 2"),
+    ("bool", "int(0) != 0"), ("bool", "int(0) >= int(1)"), ("bool", "(int(0) > 0) | (int(1) > 0)"), ("bool", "true && int(0) > 0 && int(1) > 0"),
+    ("bool", "int(0) > 0 || int(1) > 0 || int(0) < -5"),
+]
+
+
+def let_value_shape_programs():
+    """`let [mut] name =` in front of every shape of initial value: the name binds the branch's step value (not a part of the
+    expression), the result is the one without `let`"""
+    from . import e2
+
+    progs = []
+    rows = [[0, 0], [1, 0], [0, 1], [3, 2], [-7, 4]]
+    for si, (ty, shape) in enumerate(LET_SHAPES):
+        for mac in ("join", "join_spawn", "spawn"):
+            for mut in ("", "mut "):
+                if mut and mac != "join":
+                    continue
+                f0 = "|v: %s| { ev(\"0.0.f\", &v); v }" % ty
+                cap = "{ let nm = nm; move |v: i32| { ev(\"1.1.f\", &(v, nm)); v + 1 } }"
+                d = "%s! { let %snm = %s -> %s, int(1) ~-> %s }" % (mac, mut, shape, f0, cap)
+                r = "{ let nm = (%s); let nm = (%s)(nm); let r1 = int(1); let c = %s; let r1 = c(r1); (nm, r1) }" % (shape, f0, cap)
+                fmt = "\nformat!(\"{:?}\", x)"
+                progs.append(e2.Prog("letshape/%s/%d/%s" % (mac, si, "mut" if mut else "let"), "let x = %s;%s" % (r, fmt), "let x = %s;%s" % (d, fmt), rows, "Full" if mac == "join" else "Proj", meta={"macro": mac, "dsl": d, "ref": r}))
+    return progs
 
 
 def handler_expr_programs():
